@@ -381,3 +381,7 @@ def classify(data, stdout, harnesses, killed):
 
 def stubs_applied(stdout):
     return sorted(set(re.findall(r"- Stub: (.*)", stdout)))
+
+
+def verified_stubs(stdout):
+    return sorted(set(re.findall(r"- Verified stub: (.*)", stdout)))
